@@ -533,7 +533,7 @@ class C04(Suite):
     oeq = "obs_eqb"
     spec = "spec_ok"
     kf = "kf"
-    kf_ids = {i: f"F-C04-{i}" for i in range(1, 12)}
+    kf_ids = {i: f"F-C04-{i}" for i in (1, 2, 3, 4, 5, 6, 7, 9)}  # 8, 10, 11 fixed in /repo
     corr = "rdflib.plugins.sparql.evaluate.evalPart (evalBGP, evalJoin, evalLazyJoin, evalLeftJoin, evalFilter, evalUnion, evalMinus, evalExtend, evalValues, evalGraph, evalProject, evalDistinct), operators.RelationalExpression/ConditionalAnd/Or/UnaryNot/Builtin_BOUND/Builtin_EXISTS, algebra.translateQuery"
     quick_n = 1200
     thorough_n = 12000
